@@ -3,8 +3,8 @@ from ..core import Script, Rng
 from ..stage import LineStage, replay_line
 from . import b3sum_gen
 
-ARTEFACTS = ["G11-b3sum"]
-EXTRA_PROPS = [("B3.Props.C13T", "B3/Props/C13T.lean")]   # theorems about the code translated from the sources
+ARTEFACTS = ["G11-b3sum", "G28-b3sum-io"]
+EXTRA_PROPS = [("B3.Props.C13T", "B3/Props/C13T.lean"), ("B3.Props.C12T", "B3/Props/C12T.lean")]   # theorems about the code translated from the sources
 PROPS_MODULE = "B3.B3sum.Props13"
 PROPS_PATH = "B3/B3sum/Props13.lean"
 RULE = ("function-level ops on the real parse_check_line / filepath_to_string / unescape (include! of /repo/b3sum/src/main.rs): every "
